@@ -4,7 +4,7 @@
 (*                                                                          *)
 (* Types  [k |-> "prim", p |-> "string" | "bool" | "int" | "int8" | ... ]    *)
 (*        [k |-> "ptr", e |-> T]  [k |-> "slice", e |-> T]                    *)
-(*        [k |-> "struct", f |-> Seq([tag |-> Expr or [op |-> "none"], exported |-> BOOLEAN, t |-> T])] *)
+(*        [k |-> "struct", f |-> Seq([tag |-> Expr or [op |-> "none"], exported |-> BOOLEAN, emb |-> BOOLEAN, t |-> T])] *)
 (*        [k |-> "map"] [k |-> "array"] [k |-> "chan"] [k |-> "iface"] [k |-> "func"] *)
 (* Forms  "ptr" (a non-nil pointer to a T value) | "nonptr" | "nilptr" | "nil" *)
 (* Filled values  [k |-> "str", v] [k |-> "bool", v] [k |-> "num", v]         *)
@@ -18,9 +18,13 @@ Prim(p) == [k |-> "prim", p |-> p]
 Ptr(t) == [k |-> "ptr", e |-> t]
 Slice(t) == [k |-> "slice", e |-> t]
 Struct(fs) == [k |-> "struct", f |-> fs]
-Field(tag, t) == [tag |-> tag, exported |-> TRUE, t |-> t]
-Untagged(t) == [tag |-> [op |-> "none"], exported |-> TRUE, t |-> t]
-Hidden(tag, t) == [tag |-> tag, exported |-> FALSE, t |-> t]
+Field(tag, t) == [tag |-> tag, exported |-> TRUE, emb |-> FALSE, t |-> t]
+Untagged(t) == [tag |-> [op |-> "none"], exported |-> TRUE, emb |-> FALSE, t |-> t]
+Hidden(tag, t) == [tag |-> tag, exported |-> FALSE, emb |-> FALSE, t |-> t]
+\* an EMBEDDED (anonymous) member: for Unmarshal it is one field of the struct like any other - filled from its own tag when it has
+\* one, left alone when it has none; the fields Go promotes from it are NOT fields of the outer struct (FillStruct never looks at emb)
+Embedded(tag, t) == [tag |-> tag, exported |-> TRUE, emb |-> TRUE, t |-> t]
+EmbeddedUntagged(t) == [tag |-> [op |-> "none"], exported |-> TRUE, emb |-> TRUE, t |-> t]
 RECURSIVE StripPtr(_)
 StripPtr(t) == IF t.k = "ptr" THEN StripPtr(t.e) ELSE t
 
